@@ -82,11 +82,11 @@ CHECKS['C06'] = dict(
     technique="Lean 4 proof (M = S refinement + decoder exactness) + byte-exact differential check",
     ref="DESIGN.md §4 C06")
 CHECKS['C07'] = dict(
-    category='exploration',
-    text="Random legal extension steps (new additions, alternatives, enumeration items, extension ranges; any depth) turn a generated V1 into V2; all V2 values are decoded under V1 and compared with the projection, "
-         "all V1 values under V2, for 7 codecs; for the five modelled codecs the Lean decoder model for V1 is run on the same V2 bytes and must agree. No general Lean theorem over the Extends relation yet.",
-    note="No proof yet for this property (exploration + model correspondence only); the Lean models of the decoders are exercised on V2 bytes under V1.",
-    technique="differential exploration against the Lean decoder models (proof of forward/backward compatibility pending)",
+    text="Lean theorems forward_uper/oer/der and backward_uper/oer/der over the inductive relation Extends (additions, alternatives, enumeration items appended after the marker at any nesting depth): "
+         "every V2 encoding decodes under V1 to canon(project v) with the rest of the stream intact, every V1 encoding decodes under V2 to the same value; extendsB_correct, v1_value_is_v2_value. "
+         "Random extension steps V1->V2 are exercised on 7 real codecs in both directions and the V1 model decoders are run on the real V2 bytes.",
+    note=NOTE_COMMON + "Partial: theorems cover uper, oer, der (ber shares der's encoder); per-aligned, jer, xer by direct evaluation only. Known finding C07-xer-list-element-unknown.",
+    technique="Lean 4 proof (induction over a compatibility relation between decoder and encoder types) + version-pair differential check",
     ref="DESIGN.md §4 C07")
 CHECKS['C08'] = dict(
     text="Lean theorems for the total decoder models: allocation bounds (decoded value size <= K(type) x input length) for ALL byte strings and types for DER, BER and UPER; fuel sufficiency "
